@@ -1,6 +1,7 @@
 import Xp.Base.Json
 import Xp.Gen.Xcrd
 import Xp.Gen.C07
+import Xp.Gen.C07Skel
 /-
 C07 model: how a claim and its composite resource (XR) are synced.
 
@@ -83,11 +84,18 @@ def KObj.anns (o : KObj) : AL String := o.annotations.getD []
 
 /-! ### object.go -/
 
-/-- `withoutReservedK8sEntries`: the part of the key before the first "/" ends in
-kubernetes.io or k8s.io. -/
+/-- the character `withoutReservedK8sEntries` splits a key at (the string literal of its
+strings.Split call, regenerated from object.go; `reserved_tables` in Props pins that it
+is one one-character separator) -/
+def reservedSep : Char := ((Xp.Gen.c07ReservedSeparators.headD "/").toList.headD '/')
+
+/-- `strings.Split(k, sep)[0]` for a one-character separator -/
+def firstPart (k : String) : List Char := k.toList.takeWhile (· != reservedSep)
+
+/-- `withoutReservedK8sEntries`: the part of the key before the first "/" ends in one of
+the suffixes of the `strings.HasSuffix` tests of the current tree (kubernetes.io, k8s.io). -/
 def reserved (k : String) : Bool :=
-  let p := k.toList.takeWhile (· != '/')
-  "kubernetes.io".toList.isSuffixOf p || "k8s.io".toList.isSuffixOf p
+  Xp.Gen.c07ReservedSuffixes.any fun suf => suf.toList.isSuffixOf (firstPart k)
 
 def withoutReserved (m : AL String) : AL String := m.filter fun kv => !reserved kv.1
 
